@@ -265,6 +265,12 @@ TCfgs(root) ==
             {[BaseCfg EXCEPT !.op = "svd_compress", !.kind = "slices", !.shape = s, !.rank = <<cap>>, !.lens = js,
                              !.family = "lowrank", !.maxrank = mr, !.thr = t, !.grade = g] :
                  cap \in 1..K, js \in [1..I -> 1..(IF I = 2 THEN 4 ELSE 3)], mr \in 0..(K + 1), t \in {0, 1}, g \in {0, GradeExp}}
+            \* a singular value lying EXACTLY ON the threshold: slices that are signed, scaled permutation matrices with
+            \* singular values 2^(rho-1), ..., 2, 1 (exact), threshold = 2^-(cap-1): the documented rule keeps s_i >= thr * s_0,
+            \* so the smallest singular value of a slice with rho = cap sits on the threshold and must be kept
+            \cup {[BaseCfg EXCEPT !.op = "svd_compress", !.kind = "slices", !.shape = s, !.rank = <<cap>>, !.lens = js,
+                                  !.family = "tie", !.maxrank = 0, !.thr = 2] :
+                      cap \in 2..K, js \in [1..I -> 1..(IF I = 2 THEN 4 ELSE 3)]}
       [] root.op = "svd_roundtrip" ->
             {[BaseCfg EXCEPT !.op = "svd_roundtrip", !.kind = "p2", !.shape = <<2, x[2]>>, !.rank = <<r>>, !.lens = x[1],
                              !.family = "fullrank", !.maxrank = mr, !.thr = t] :
@@ -300,6 +306,15 @@ TExpand(c) ==
                                  [] c.cmix = "int_first" -> IF k = 1 THEN "int64" ELSE "float64"
                                  [] OTHER                -> IF k = 1 THEN "float64" ELSE "complex128"]]
 
+\* "tie" family: X = L R with L a signed selection (orthonormal columns) and the rows of R mutually orthogonal with
+\* norms 2^(rho-1), ..., 2, 1: the singular values of X are exactly those norms
+Pow2(n) == FProd(n, LAMBDA k : 2)
+RowDot(R, a, b) == FSum(R.shape[2], LAMBDA k : E2(R, a, k - 1) * E2(R, b, k - 1))
+TieDomain(in) ==
+    \A i \in 1..Len(in.fs) :
+       LET L == in.fs[i]  R == in.rs[i]  rho == L.shape[2] IN
+       /\ Orthonormal(L, 1) /\ \A n \in 1..Len(L.data) : L.data[n] \in {-1, 0, 1}
+       /\ \A a, b \in 0..(rho - 1) : RowDot(R, a, b) = (IF a = b THEN Pow2(2 * (rho - 1 - a)) ELSE 0)
 \* ---- does the (integer) input have the degenerate feature its family promises?
 AllCols(in, P(_, _)) == \A k \in 1..Len(in.fs) : \A r \in 0..(in.fs[k].shape[2] - 1) : P(k, r)
 SomeCol(in, P(_, _)) == \E k \in 1..Len(in.fs) : \E r \in 0..(in.fs[k].shape[2] - 1) : P(k, r)
@@ -312,6 +327,7 @@ FamilyOK(c, in) ==
       [] c.family = "now"      -> ~in.hasw
       [] c.family = "orthb"    -> \A r, t \in 0..(in.fs[2].shape[2] - 1) : r # t => ColDot(in.fs[2], r, t) = 0
       [] c.family = "fullrank" -> ValidP2(in) /\ P2FullRank(in)
+      [] c.family = "tie"      -> TieDomain(in)
       [] OTHER -> TRUE
 
 \* ============================================================================ theorems (design run)
@@ -334,6 +350,11 @@ TCfgOK(c) ==
     LET in == TGenIn(c, FALSE)  kd == c.kind IN
     /\ (kd # "slices" => Valid(kd, in))
     /\ (c.mag # 0 => MagMove(kd, in))
+    /\ (c.op = "svd_compress" /\ c.family = "tie" =>
+          \* keep rule s_j >= thr * s_1 with thr = 2^-(cap-1), s_j = 2^(rho-j): holds for every j <= rho <= cap, with equality at j = cap
+          \A i \in 1..Len(c.lens) : \A j \in 1..SliceRho(c, i) :
+              /\ Pow2(c.rank[1] - 1) * Pow2(SliceRho(c, i) - j) >= Pow2(SliceRho(c, i) - 1)
+              /\ (j = c.rank[1] => Pow2(c.rank[1] - 1) * Pow2(SliceRho(c, i) - j) = Pow2(SliceRho(c, i) - 1)))
     /\ CASE c.op = "sequence" ->
               LET x  == in @@ [m |-> GenM(IF Cardinality({i \in 1..Len(c.steps) : c.steps[i] = "M"}) > 1 THEN c.shape[c.mode + 1] ELSE 2,
                                             c.shape[c.mode + 1])]
@@ -408,8 +429,8 @@ TInit == cfg \in TRoots
 InSvdDomain(c) == c.op = "svd_compress" =>
                     /\ KeepsAll(c)
                     /\ (c.grade # 0 => c.thr = 0 /\ c.maxrank = 0 /\ c.rank[1] >= 2)
-                    /\ (c.thr = 1 => c.maxrank = 0)
-                    /\ (Len(c.lens) = 3 => c.thr = 0 /\ c.maxrank \in {0, c.rank[1]})
+                    /\ (c.thr # 0 => c.maxrank = 0)
+                    /\ (Len(c.lens) = 3 => c.thr \in {0, 2} /\ c.maxrank \in {0, c.rank[1]})
 \* MAGNITUDE twins.  One factor column (one whole core for TT / TR / TT-matrix) of the integer input is scaled by
 \* 2^mag and the compensating 2^-mag goes to the weights / another factor / the core slice / another core, so
 \* that the dense tensor stays moderate.  Power-of-two scalings are exact in floating point and can be moved
